@@ -65,7 +65,6 @@ func writeRule(dir string, diff []fsx.Change, final fsx.Snap, originals map[stri
 }
 
 var reOut2 = regexp.MustCompile(`^set(\.vol\d+\+\d+)?\.par2$`)
-var reOut1 = regexp.MustCompile(`^set\.(par|p\d\d)$`)
 
 func check(c Case) (string, info) {
 	var inf info
@@ -107,8 +106,13 @@ func check(c Case) (string, info) {
 	if o.CreatePan != "" || o.CreateErr != nil {
 		return fmt.Sprintf("Create failed: %v %s", o.CreateErr, o.CreatePan), inf
 	}
+	base1 := c.P1.Base
+	if base1 == "" {
+		base1 = "set"
+	}
+	re1 := regexp.MustCompile("^" + regexp.QuoteMeta(base1) + `\.(par|p\d\d)$`)
 	for n := range o.Outputs {
-		if !reOut1.MatchString(n) {
+		if !re1.MatchString(n) {
 			return fmt.Sprintf("PAR1 Create touched %q", n), inf
 		}
 	}
@@ -152,6 +156,7 @@ func gen2(t *rapid.T) *scen.Case {
 	if rapid.IntRange(0, 3).Draw(t, "delvol") == 0 {
 		c.DelVolumes = rapid.SliceOfN(rapid.IntRange(0, 7), 1, 3).Draw(t, "delvols")
 	}
+	c.DirName = rapid.SampledFrom(scen.DirNames).Draw(t, "dirname")
 	c.Bystanders = rapid.IntRange(0, 3).Draw(t, "by") > 0
 	c.ForeignVol = rapid.IntRange(0, 2).Draw(t, "foreign") == 0
 	c.DupVol = rapid.IntRange(0, 3).Draw(t, "dup") == 0
@@ -193,6 +198,8 @@ func gen1(t *rapid.T) *scen.Case1 {
 	}
 	c.DoubleCheck = rapid.Bool().Draw(t, "dc")
 	c.Bystanders = rapid.IntRange(0, 3).Draw(t, "by") > 0
+	c.DirName = rapid.SampledFrom(scen.DirNames).Draw(t, "dirname")
+	c.Base = rapid.SampledFrom(scen.Bases1).Draw(t, "base")
 	if rapid.IntRange(0, 4).Draw(t, "corrupt") == 0 {
 		c.CorruptVol = rapid.IntRange(1, c.NVol).Draw(t, "cv")
 	}
